@@ -3,6 +3,11 @@
 // handlers of tun/server over one recording in-memory DHT; after every call the whole DHT (routes, hostname
 // registrations, custom bindings) is printed and compared with the Lean model and the executable statement.
 //
+// Every request reaches the handlers the way the transport delivers it: a StreamDelegate carrying the verified
+// certificate AND the identity the peer claims on the stream. The claimed identity is absent, honest, or spoofed
+// (the caller's own Id with another client's token as address, a cleared rendezvous flag, another client's whole
+// identity, a foreign Id with the caller's own address, …); the stored routes must name the certificate identity.
+//
 // Concurrency: two or three requests (of the same or of different clients) run CONCURRENTLY through the real
 // handlers while a deterministic scheduler sits in front of the DHT: every KV call of an in-flight request
 // (Acquire / PrefixContains / Get / Put / Delete / PrefixRemove / Release — the natural yield points of the
@@ -40,11 +45,62 @@ type client struct {
 	cn  string // certificate CommonName
 }
 
+// claim is the identity a peer claims on the stream (StreamDelegate.Identity); nil = none.
+type claim = *protocol.Node
+
+func claimTok(cl claim) string {
+	if cl == nil {
+		return "-"
+	}
+	rdv := "0"
+	if cl.GetRendezvous() {
+		rdv = "1"
+	}
+	return strconv.FormatUint(cl.GetId(), 10) + "|" + cl.GetAddress() + "|" + rdv
+}
+
+func parseClaim(t string) claim {
+	f := strings.Split(t, "|")
+	if len(f) != 3 {
+		return nil
+	}
+	id, _ := strconv.ParseUint(f[0], 10, 64)
+	return &protocol.Node{Id: id, Address: f[1], Rendezvous: f[2] == "1"}
+}
+
+// spoofKinds is the number of claim shapes of mkClaim.
+const spoofKinds = 9
+
+// mkClaim builds the claimed identity of shape `kind` for caller c; o is some other client (the victim).
+func mkClaim(kind int, c, o client) claim {
+	switch kind % spoofKinds {
+	case 0: // honest: what the certificate says
+		return &protocol.Node{Id: c.id, Address: c.tok, Rendezvous: true}
+	case 1: // no identity on the stream
+		return nil
+	case 2: // own Id, the victim's token as address
+		return &protocol.Node{Id: c.id, Address: o.tok, Rendezvous: true}
+	case 3: // own Id and address, not a rendezvous node
+		return &protocol.Node{Id: c.id, Address: c.tok, Rendezvous: false}
+	case 4: // own Id, an address nobody has
+		return &protocol.Node{Id: c.id, Address: "mallory", Rendezvous: true}
+	case 5: // the victim's whole identity
+		return &protocol.Node{Id: o.id, Address: o.tok, Rendezvous: true}
+	case 6: // the victim's Id with the caller's own address
+		return &protocol.Node{Id: o.id, Address: c.tok, Rendezvous: true}
+	case 7: // own Id, the victim's token, not a rendezvous node
+		return &protocol.Node{Id: c.id, Address: o.tok, Rendezvous: false}
+	default: // an Id nobody has
+		return &protocol.Node{Id: 99, Address: c.tok, Rendezvous: true}
+	}
+}
+
 // creq is one request of a concurrent scenario.
 type creq struct {
 	tid     int
 	op      string // pub | unpub | rel
 	c       client
+	cl      claim // identity claimed on the stream
 	h       string
 	srvToks []string
 	code    string
@@ -55,7 +111,8 @@ func main() {
 	r := hlib.Start()
 	r.Rule = "one case = a history of 10..40 calls by 2..4 clients over one DHT; non-trivial = distinct call line (op, caller, hostname kind, server list, faults) in a distinct history position; " +
 		"hostnames: own (generated or custom-bound), foreign (another client's), never registered, already released; server lists: 0..6 entries with nil nodes, duplicates, " +
-		"unknown servers and spoofed Id/Rendezvous fields; faults: failing Put/Delete per route slot, failing custom-hostname Delete, lease held by a concurrent call; " +
+		"unknown servers and spoofed Id/Rendezvous fields; identity claimed on the stream of every call: none, honest, own Id with another client's token / an unknown address / cleared rendezvous flag, " +
+		"another client's whole identity, a foreign Id with the own address; faults: failing Put/Delete per route slot, failing custom-hostname Delete, lease held by a concurrent call; " +
 		"concurrent scenarios: 2..3 overlapping publish/unpublish/release requests of the same or of different clients, interleaved at KV-call granularity by a deterministic scheduler " +
 		"(every window position p of request 0 x {publish 1..3 servers, unpublish, release} x {publish, unpublish, release} x {same client, other client} x {routes present or not}, plus random interleavings)"
 	rng := hlib.NewRng(r.Seed)
@@ -76,8 +133,20 @@ func main() {
 		{"v2:3:carolhash", 3, "v2:3:carolhash"}, {"dave", 4, "v1:4:dave"},
 	}
 	servers := map[string]string{"s1": "c1", "s2": "c2", "s3": "c3", "s4": "c4"} // tunnel address -> chord address; s9 has no record
-	callCtx := func(c client) context.Context {
-		return rpc.WithDelegation(ctx, &transport.StreamDelegate{Certificate: rig.Cert(c.cn)})
+	callCtx := func(c client, cl claim) context.Context {
+		return rpc.WithDelegation(ctx, &transport.StreamDelegate{Certificate: rig.Cert(c.cn), Identity: cl, Kind: protocol.Stream_RPC})
+	}
+	countClaim := func(c client, cl claim) {
+		switch {
+		case cl == nil:
+			r.Count("claim:none")
+		case cl.GetId() == c.id && cl.GetAddress() == c.tok && cl.GetRendezvous():
+			r.Count("claim:honest")
+		case cl.GetId() == c.id:
+			r.Count("claim:own-id-spoofed")
+		default:
+			r.Count("claim:foreign-id")
+		}
 	}
 	codeOf := func(err error) string {
 		if err == nil {
@@ -104,8 +173,12 @@ func main() {
 					continue
 				}
 				cd := rt.GetClientDestination()
+				rdv := "0"
+				if cd.GetRendezvous() {
+					rdv = "1"
+				}
 				routes = append(routes, rest[:i]+"|"+rest[i+1:]+"|"+cd.GetAddress()+"|"+strconv.FormatUint(cd.GetId(), 10)+"|"+
-					rt.GetChordDestination().GetAddress()+"|"+rt.GetTunnelDestination().GetAddress()+"|"+rt.GetHostname())
+					rt.GetChordDestination().GetAddress()+"|"+rt.GetTunnelDestination().GetAddress()+"|"+rt.GetHostname()+"|"+rdv)
 			case strings.HasPrefix(e.Key, "/tunnel/client/hostnames/"):
 				t := strings.TrimPrefix(e.Key, "/tunnel/client/hostnames/")
 				for _, h := range e.Children {
@@ -170,10 +243,10 @@ func main() {
 	}
 
 	// --- operations (each prints one line) ---
-	gen := func(c client) string {
+	gen := func(c client, cl claim) string {
 		var h string
 		code := guard(func() string {
-			resp, err := srv.GenerateHostname(callCtx(c), &protocol.GenerateHostnameRequest{})
+			resp, err := srv.GenerateHostname(callCtx(c, cl), &protocol.GenerateHostnameRequest{})
 			if err == nil {
 				h = resp.GetHostname()
 			}
@@ -182,8 +255,9 @@ func main() {
 		if code != "ok" {
 			h = "err:" + code
 		}
-		r.Emit("gen "+c.tok+" "+strconv.FormatUint(c.id, 10), h+" "+digest())
+		r.Emit("gen "+c.tok+" "+strconv.FormatUint(c.id, 10)+" "+claimTok(cl), h+" "+digest())
 		r.Count("op:gen")
+		countClaim(c, cl)
 		return h
 	}
 	bind := func(c client, h string) {
@@ -193,7 +267,7 @@ func main() {
 		r.Emit("bind "+c.tok+" "+strconv.FormatUint(c.id, 10)+" "+h, "ok "+digest())
 		r.Count("op:bind")
 	}
-	pub := func(c client, h string, srvToks []string, slots []int, kind string) {
+	pub := func(c client, cl claim, h string, srvToks []string, slots []int, kind string) {
 		var nodes []*protocol.Node
 		for i, t := range srvToks {
 			if t == "n" {
@@ -206,7 +280,7 @@ func main() {
 		setFaults(h, slots, false)
 		published := "-"
 		code := guard(func() string {
-			resp, err := srv.PublishTunnel(callCtx(c), &protocol.PublishTunnelRequest{Hostname: h, Servers: nodes})
+			resp, err := srv.PublishTunnel(callCtx(c, cl), &protocol.PublishTunnelRequest{Hostname: h, Servers: nodes})
 			if err == nil {
 				var p []string
 				for _, n := range resp.GetPublished() {
@@ -217,27 +291,28 @@ func main() {
 			return codeOf(err)
 		})
 		node.FailPut = map[string]error{}
-		lhs := "pub " + c.tok + " " + strconv.FormatUint(c.id, 10) + " " + h + " " + hlib.Join(srvToks, ",") + " " + slotTok(slots)
+		lhs := "pub " + c.tok + " " + strconv.FormatUint(c.id, 10) + " " + h + " " + hlib.Join(srvToks, ",") + " " + slotTok(slots) + " " + claimTok(cl)
 		r.Emit(lhs, code+" "+published+" "+digest())
 		r.Case(lhs)
+		countClaim(c, cl)
 		r.Count("op:pub/" + kind + "/" + code)
 	}
-	unpub := func(c client, h string, slots []int, kind string) {
+	unpub := func(c client, cl claim, h string, slots []int, kind string) {
 		setFaults(h, slots, false)
 		code := guard(func() string {
-			_, err := srv.UnpublishTunnel(callCtx(c), &protocol.UnpublishTunnelRequest{Hostname: h})
+			_, err := srv.UnpublishTunnel(callCtx(c, cl), &protocol.UnpublishTunnelRequest{Hostname: h})
 			return codeOf(err)
 		})
 		node.FailPut = map[string]error{}
-		lhs := "unpub " + c.tok + " " + strconv.FormatUint(c.id, 10) + " " + h + " " + slotTok(slots)
+		lhs := "unpub " + c.tok + " " + strconv.FormatUint(c.id, 10) + " " + h + " " + slotTok(slots) + " " + claimTok(cl)
 		r.Emit(lhs, code+" - "+digest())
 		r.Case(lhs)
 		r.Count("op:unpub/" + kind + "/" + code)
 	}
-	rel := func(c client, h string, slots []int, customFail bool, kind string) {
+	rel := func(c client, cl claim, h string, slots []int, customFail bool, kind string) {
 		setFaults(h, slots, customFail)
 		code := guard(func() string {
-			_, err := srv.ReleaseTunnel(callCtx(c), &protocol.ReleaseTunnelRequest{Hostname: h})
+			_, err := srv.ReleaseTunnel(callCtx(c, cl), &protocol.ReleaseTunnelRequest{Hostname: h})
 			return codeOf(err)
 		})
 		node.FailPut = map[string]error{}
@@ -245,7 +320,7 @@ func main() {
 		if customFail {
 			cf = "1"
 		}
-		lhs := "rel " + c.tok + " " + strconv.FormatUint(c.id, 10) + " " + h + " " + slotTok(slots) + " " + cf
+		lhs := "rel " + c.tok + " " + strconv.FormatUint(c.id, 10) + " " + h + " " + slotTok(slots) + " " + cf + " " + claimTok(cl)
 		r.Emit(lhs, code+" - "+digest())
 		r.Case(lhs)
 		r.Count("op:rel/" + kind + "/" + code)
@@ -339,6 +414,8 @@ func main() {
 			default:
 				lhs += " " + slotTok(slots) + " " + cfTok
 			}
+			lhs += " " + claimTok(q.cl)
+			countClaim(q.c, q.cl)
 			r.Emit(lhs, "ok")
 			key += "|" + lhs
 		}
@@ -347,7 +424,7 @@ func main() {
 		for _, q := range reqs {
 			q := q
 			go func() {
-				rctx := withTid(callCtx(q.c), q.tid)
+				rctx := withTid(callCtx(q.c, q.cl), q.tid)
 				q.pubd = "-"
 				q.code = guard(func() string {
 					switch q.op {
@@ -439,6 +516,12 @@ func main() {
 			}
 			return out
 		}
+		claimAt := func(t []string, i int) claim { // recordings made before claims existed have no such token
+			if len(t) > i {
+				return parseClaim(t[i])
+			}
+			return nil
+		}
 		lines, _ := readReplay(r.Replay)
 		started := false
 		var creqs []*creq
@@ -458,7 +541,7 @@ func main() {
 			case "reset":
 				reset()
 			case "gen":
-				h := gen(byTok[t[1]])
+				h := gen(byTok[t[1]], claimAt(t, 3))
 				if f := strings.Fields(ln.rhs); len(f) > 0 {
 					ren[f[0]] = h
 				}
@@ -469,11 +552,11 @@ func main() {
 				if t[4] != "-" {
 					st = strings.Split(t[4], ",")
 				}
-				pub(byTok[t[1]], name(t[3]), st, slotsOf(t[5]), "replay")
+				pub(byTok[t[1]], claimAt(t, 6), name(t[3]), st, slotsOf(t[5]), "replay")
 			case "unpub":
-				unpub(byTok[t[1]], name(t[3]), slotsOf(t[4]), "replay")
+				unpub(byTok[t[1]], claimAt(t, 5), name(t[3]), slotsOf(t[4]), "replay")
 			case "rel":
-				rel(byTok[t[1]], name(t[3]), slotsOf(t[4]), t[5] == "1", "replay")
+				rel(byTok[t[1]], claimAt(t, 6), name(t[3]), slotsOf(t[4]), t[5] == "1", "replay")
 			case "hold":
 				hold(byTok[t[1]], t[2] == "1")
 			case "creq":
@@ -490,11 +573,14 @@ func main() {
 					if len(t) > 7 {
 						cslots = slotsOf(t[7])
 					}
+					q.cl = claimAt(t, 8)
 				case "unpub":
 					cslots = slotsOf(t[6])
+					q.cl = claimAt(t, 7)
 				default:
 					cslots = slotsOf(t[6])
 					ccf = len(t) > 7 && t[7] == "1"
+					q.cl = claimAt(t, 8)
 				}
 				creqs = append(creqs, q)
 			case "cs":
@@ -534,20 +620,27 @@ func main() {
 			if custom {
 				h = "shop.customer.net"
 				bind(alice, h)
-			} else if h = gen(alice); strings.HasPrefix(h, "err:") {
+			} else if h = gen(alice, mkClaim(p+mode, alice, bob)); strings.HasPrefix(h, "err:") {
 				return
 			}
-			gen(bob)
+			gen(bob, mkClaim(0, bob, alice))
 			if pre {
-				pub(alice, h, []string{"as2", "as3"}, nil, "own")
+				pub(alice, mkClaim(2*((p+mode)%2), alice, bob), h, []string{"as2", "as3"}, nil, "own")
 			}
 			bc := alice
 			if other {
 				bc = bob
 			}
-			reqs := []*creq{{tid: 0, op: ak.op, c: alice, h: h, srvToks: ak.srv}, {tid: 1, op: bk.op, c: bc, h: h, srvToks: bk.srv}}
+			// the claimed identities rotate with the window position: own Id + the other client's token first
+			k0 := []int{2, 0, 7, 3, 1, 4}[(p+mode)%6]
+			bo := bob
+			if other {
+				bo = alice
+			}
+			reqs := []*creq{{tid: 0, op: ak.op, c: alice, cl: mkClaim(k0, alice, bob), h: h, srvToks: ak.srv},
+				{tid: 1, op: bk.op, c: bc, cl: mkClaim(2*p+mode+5, bc, bo), h: h, srvToks: bk.srv}}
 			if third != nil {
-				reqs = append(reqs, &creq{tid: 2, op: third.op, c: alice, h: h, srvToks: third.srv})
+				reqs = append(reqs, &creq{tid: 2, op: third.op, c: alice, cl: mkClaim(p+2, alice, bob), h: h, srvToks: third.srv})
 			}
 			label := "window"
 			if other {
@@ -555,10 +648,10 @@ func main() {
 			}
 			n0 := conc(reqs, nil, false, windowPlan(p, mode), label)
 			// afterwards the hostname can be claimed again (custom) or is gone for good: a sequential epilogue
-			pub(alice, h, []string{"as1"}, nil, "after")
+			pub(alice, mkClaim(p+mode+2, alice, bob), h, []string{"as1"}, nil, "after")
 			if custom && !strings.Contains(digest(), alice.tok+"|"+h) {
 				bind(bob, h) // the released custom hostname is claimed by another client
-				pub(bob, h, []string{"as4"}, nil, "after")
+				pub(bob, mkClaim(p+mode+2, bob, alice), h, []string{"as4"}, nil, "after")
 			}
 			if p >= n0 {
 				return
@@ -592,13 +685,42 @@ func main() {
 		reset()
 		nc := 2 + rng.Intn(3)
 		cs := clients[:nc]
+		// the identity a call claims on its stream: mostly honest or the caller's own Id with somebody else's address
+		pickClaim := func(c client) claim {
+			o := hlib.Pick(rng, cs)
+			for o.tok == c.tok {
+				o = hlib.Pick(rng, cs)
+			}
+			kind := 0
+			switch k := rng.Intn(100); {
+			case k < 30:
+				kind = 0
+			case k < 40:
+				kind = 1
+			case k < 60:
+				kind = 2
+			case k < 68:
+				kind = 3
+			case k < 74:
+				kind = 4
+			case k < 82:
+				kind = 5
+			case k < 88:
+				kind = 6
+			case k < 95:
+				kind = 7
+			default:
+				kind = 8
+			}
+			return mkClaim(kind, c, o)
+		}
 		owned := map[string][]string{} // token -> hostnames currently registered (harness bookkeeping for generation only)
 		released := []string{}
 		customN := 0
 		// every client starts with a hostname or two
 		for _, c := range cs {
 			for k := 0; k < 1+rng.Intn(2); k++ {
-				if h := gen(c); !strings.HasPrefix(h, "err:") {
+				if h := gen(c, pickClaim(c)); !strings.HasPrefix(h, "err:") {
 					owned[c.tok] = append(owned[c.tok], h)
 				}
 			}
@@ -642,6 +764,7 @@ func main() {
 					if i > 0 && rng.Chance(25) {
 						q.c = hlib.Pick(rng, cs)
 					}
+					q.cl = pickClaim(q.c)
 					if i > 0 && rng.Chance(20) {
 						if len(owned[q.c.tok]) > 0 {
 							q.h = hlib.Pick(rng, owned[q.c.tok])
@@ -704,7 +827,7 @@ func main() {
 			}
 			switch op := rng.Intn(100); {
 			case op < 8:
-				if hn := gen(c); !strings.HasPrefix(hn, "err:") {
+				if hn := gen(c, pickClaim(c)); !strings.HasPrefix(hn, "err:") {
 					owned[c.tok] = append(owned[c.tok], hn)
 				}
 			case op < 12:
@@ -727,13 +850,13 @@ func main() {
 						st[i] = "as2"
 					}
 				}
-				pub(c, h, st, slots, kind)
+				pub(c, pickClaim(c), h, st, slots, kind)
 			case op < 75:
-				unpub(c, h, slots, kind)
+				unpub(c, pickClaim(c), h, slots, kind)
 			case op < 92:
 				cf := rng.Chance(10)
 				before := digest()
-				rel(c, h, slots, cf, kind)
+				rel(c, pickClaim(c), h, slots, cf, kind)
 				if kind == "own" && before != digest() {
 					// bookkeeping: the registration is gone when the digest no longer lists it
 					if !strings.Contains(digest(), c.tok+"|"+h) {
